@@ -184,6 +184,29 @@ def run(pid, tier, out):
         probs = c02_oracle(app, b, q, r, budget, stats)
         if probs:
             oracle_hits.append({'ops': list(b.ops), 'http': cand.query_http(q), 'q': q, 'problems': probs[:5]})
+        # the same question LIMITED, with and without [placement]randomize_allocation_candidates: what comes back must still
+        # be claimable as returned and carry the summaries of the providers it names
+        m = len(r.json['allocation_requests'])
+        if m >= 2 and q['v'] >= 16 and stats['limited'] < (60 if tier == 'quick' else 100000):
+            import random as _random
+            path, ver = cand.query_http(q)
+            for randomize in (True, False):
+                app.conf.set_override('randomize_allocation_candidates', randomize, group='placement')
+                try:
+                    for lim in sorted(set([1, m - 1])):
+                        _random.seed(stats['limited'])
+                        r2 = app.request('GET', '%s&limit=%d' % (path, lim), version=ver, headers=SVC)
+                        stats['limited'] += 1
+                        if r2.status != 200:
+                            probs2 = ['limit=%d (randomize %s) answered %d' % (lim, randomize, r2.status)]
+                        else:
+                            probs2 = c02_oracle(app, b, q, r2, [2], stats)
+                        if probs2:
+                            oracle_hits.append({'ops': list(b.ops), 'http': ('%s&limit=%d' % (path, lim), ver), 'q': q,
+                                                'config': {'randomize_allocation_candidates': randomize},
+                                                'problems': ['with limit=%d, randomize=%s: %s' % (lim, randomize, x) for x in probs2[:4]]})
+                finally:
+                    app.conf.clear_override('randomize_allocation_candidates', group='placement')
 
     model_ok = all(common.vo_fresh(d) for d in MODEL)
     bad, corr_error = [], None
